@@ -986,6 +986,27 @@ def gtx_integer_cases(tier):
                 ok = False
         return [R.ob('mod(x, y)<uint>', 'gtx_integer', R.PROVED if ok else R.UNDECIDED, 'x - y * (x / y): the remainder' if ok else 'got %s' % tm.show(t, 4), kernel=km.source())]
     cs.append(R.Case('mod(x, y)<uint>', [km], jm))
+    # integer sqrt (Newton iteration with a data-dependent trip count): the kernel with a constant argument must reduce (compiler constant folding of the instantiated
+    # code, nothing is run by the check) to floor(sqrt(n)); arguments around every kind of boundary: small values, k^2 - 1, k^2, k^2 + 1, the type maximum
+    sq_args = sorted(set(list(range(0, 27)) + [k_ * k_ + d_ for k_ in (6, 7, 10, 16, 31, 100, 181, 255, 256, 1000, 4096, 32767, 46340) for d_ in (-1, 0, 1)] + [2147483647, 2147395599, 2147395600]))
+    for T_, ty_, lim in (('int', it_, 2147483647), ('uint', ut, 4294967295)):
+        for n in sq_args + ([4294967295, 4294836224, 4294836225] if T_ == 'uint' else []):
+            if n > lim:
+                continue
+            lit = '%d' % n if T_ == 'int' else '%du' % n
+            k = K('gsqrt_%s_%d' % (T_, n), [Par('o', ty_, False)], '*o = sqrt(%s(%s));' % (ty_.cpp, lit), CFG)
+            name = 'sqrt<%s>(%d)' % (T_, n)
+
+            def jq(ctx, k=k, n=n, name=name):
+                err = ctx.compile_error(k)
+                if err:
+                    return [R.ob(name, 'existence', R.REFUTED, 'cannot be instantiated: ' + err, kernel=k.source())]
+                t = I.out_lane(ctx.fn(k), 'o', 0, 4)
+                if t.op == 'const':
+                    ok = t.args[0] == math.isqrt(n)
+                    return [R.ob(name, 'gtx_integer', R.PROVED if ok else R.REFUTED, 'floor(sqrt(%d)) == %d' % (n, math.isqrt(n)) if ok else 'the kernel reduces to %d, floor(sqrt(%d)) is %d' % (t.args[0], n, math.isqrt(n)), kernel=k.source())]
+                return [R.ob(name, 'gtx_integer', R.UNDECIDED, 'not reduced to a constant: %s' % tm.show(t, 3), kernel=k.source())]
+            cs.append(R.Case(name, [k], jq))
     # factorial on 0..12
     for n in range(0, 13):
         k = K('gfact_%d' % n, [Par('o', it_, False)], '*o = factorial(%d);' % n, CFG)
